@@ -199,6 +199,12 @@ def run(cx):
         if not okc:
             uo = [x for x in walk(t) if x[0] == "call" and name_matches(x[1], "Result::unwrap_or") and term_has_call(x, "TryFrom::try_from") and mentions_field(x, "max_idle_timeout_ms")]
             okc = bool(uo)
+        if not okc:
+            # `.map(saturating_varint)`: a fn item as the mapper
+            for x in walk(t):
+                if x[0] == "fnptr" and x[1] in prog.bodies:
+                    r = strip_identity(Origins(prog.bodies[x[1]]).of_local(0))
+                    okc = okc or (r[0] == "call" and name_matches(r[1], "Result::unwrap_or") and term_has_call(r, "TryFrom::try_from") and any(y[0] == "param" for y in walk(r)))
         ob.require(okc, "idle/conversion", "idle timeout is not converted with VarInt::try_from(n).unwrap_or(MAX)", b.path)
         t = strip_identity(arg_origin(ka[0], 1, o))
         ok = t[0] == "agg" and t[2].endswith("Option::Some") and mentions_field(t, "keep_alive_interval_ms") and \
